@@ -19,7 +19,7 @@ TEXT = {
  "C05": ("proof", "DSU::{new,reset,par,un,check,size} verified against the partition view (rep/same), sizes = class cardinalities, union-by-size doubling invariant sz[p[v]] >= 2*sz[v] (hence depth <= log2(component size), lemma_log_depth) and termination of the recursive find.",
          "Preconditions: indices < n. Derived Clone/Debug not under contract (Verus attaches no spec to derived Clone)."),
  "C06": ("proof", "Every function of Modular<M> the property depends on (new, inv, pow, + - * / neg and the assigning forms) is verified for a symbolic modulus 2 <= M < 2^31 against value-level contracts ((a op b) mod M, true inverse when coprime), including absence of i32/i64 overflow.",
-         "Display/Debug/Show and the Readable/Writable delegations (one-line calls into the io unit) are not under contract."),
+         "Readable::read / Writable::write of Modular are verified inside the reader (i64) and writer (u32) units (mint_read, mint_write) against the proved token parser / renderer and the same environment contracts as C08/C09. Display/Debug/Show are not under contract."),
  "C07": ("proof", "Rational::{norm,new,new_int,floor,ceil}, + - * / (by-reference, by-value, assigning forms, instantiated from the real macros), Neg, cmp/partial_cmp are verified for i64, i32 and i128: results canonical (b > 0, gcd = 1) and exactly equal (cross-multiplied) to the rational result; canonical representations are unique (structural == numeric equality); cmp is the numeric order; floor/ceil bracket the value for both signs.",
          "Operand bound |a|,|b| <= 2^30 (i64), 2^14 (i32), 2^62 (i128) in requires. Derived Clone/Copy/PartialEq/Hash assumed field-wise. Ord/PartialOrd impls are verified as inherent impls (R13) because trait impl methods cannot carry the bound."),
  "C08": ("proof", "Reader::{new,refill,peek,skip_whitespace,is_eof,read_line,read,read_vec}, Readable for all 12 integer widths, String, char and tuples are verified against an ENVIRONMENT CONTRACT for io::Read that admits every short read and ErrorKind::Interrupted at every call: every result is a function of `unread` (buffer window ++ rest of the source) alone.",
